@@ -86,7 +86,7 @@ pub struct WallClock {
 
 pub struct Ctx {
     pub seq: u64,
-    pub events: Vec<PluginEvent>,
+    pub events: Vec<(u64, PluginEvent)>,
     pub stdin: StdinPipe,
     pub stdout: StdoutPipe,
     pub next_rpc_id: u64,
@@ -99,6 +99,22 @@ pub struct Ctx {
 }
 
 impl Ctx {
+    /// Virtual milliseconds since this lifetime's origin.
+    pub fn rel_ms(&self) -> u64 {
+        match self.wall.origin {
+            Some(o) => ::tokio::time::Instant::now()
+                .saturating_duration_since(o)
+                .as_millis() as u64,
+            None => 0,
+        }
+    }
+
+    pub fn push(&mut self, ev: PluginEvent) {
+        self.seq += 1;
+        let at = self.rel_ms();
+        self.events.push((at, ev));
+    }
+
     pub fn new() -> Self {
         Ctx {
             seq: 0,
@@ -242,8 +258,7 @@ impl ::tokio::io::AsyncWrite for Stdout {
             if c.stdout.budget != usize::MAX {
                 c.stdout.budget -= n;
             }
-            c.seq += 1;
-            c.events.push(PluginEvent::Stdout(buf[..n].to_vec()));
+            c.push(PluginEvent::Stdout(buf[..n].to_vec()));
             Poll::Ready(Ok(n))
         })
     }
@@ -337,8 +352,7 @@ where
         c.next_rpc_id += 1;
         let (tx, rx) = ::tokio::sync::oneshot::channel();
         c.rpc_waiters.insert(id, tx);
-        c.seq += 1;
-        c.events.push(PluginEvent::Rpc { id, method, params });
+        c.push(PluginEvent::Rpc { id, method, params });
         rx
     });
     match rx.await {
@@ -475,8 +489,7 @@ pub fn table_len() -> Option<usize> {
 
 pub fn observe_notification(req: &crate::email::NotifyPaymentFailedRequest) {
     with(|c| {
-        c.seq += 1;
-        c.events.push(PluginEvent::Notification {
+        c.push(PluginEvent::Notification {
             destination: req.destination.to_string(),
             payment_hash: req.payment_hash.to_string(),
             invoice: req.invoice.clone(),
@@ -504,8 +517,7 @@ pub fn install_panic_hook() {
             .unwrap_or_default();
         let recorded = try_with(|c| {
             c.panics += 1;
-            c.seq += 1;
-            c.events.push(PluginEvent::Panic(format!("{} @ {}", msg, loc)));
+            c.push(PluginEvent::Panic(format!("{} @ {}", msg, loc)));
         });
         if recorded.is_none() {
             // Not inside a simulation (harness bug): behave as usual.
@@ -514,13 +526,10 @@ pub fn install_panic_hook() {
     }));
 }
 
-pub fn take_events() -> Vec<PluginEvent> {
+pub fn take_events() -> Vec<(u64, PluginEvent)> {
     with(|c| ::std::mem::take(&mut c.events))
 }
 
 pub fn push_event(ev: PluginEvent) {
-    with(|c| {
-        c.seq += 1;
-        c.events.push(ev);
-    });
+    with(|c| c.push(ev));
 }
